@@ -118,6 +118,11 @@ def case(rep, drv, rnd, i, tier):
         for k in range(0, len(prows) + 1):
             extra.append(('query', 'pydel', rnd.choice([('raise', max(k, 1)), ('stop', k)]), [[Sym('v'), 0]], rnd.choice(['throw', 'close', 'drop'])))
         extra.append(('query', 'pydel', ('all',), [[Sym('v'), 0]]))
+        # retractall binds nothing, whatever it removed
+        for a_ in rnd.sample(['a', 'b', 'c'], rnd.randint(1, 3)):
+            extra.append(('assert', 'seen', 'z', [[Sym('a'), a_]]))
+        extra.append(('query', 'retractall', rnd.choice([('all',), ('stop', 1)]), [[Sym('f'), 'seen', [Sym('v'), 0]]]))
+        extra.append(('query', 'seen', ('all',), [[Sym('v'), 0]]))
         # a builtin queried directly: `query` delegates straight to the generator of the unification
         t = rnd.choice([[Sym('a'), 'a'], [Sym('f'), 'f', [Sym('v'), 1], [Sym('a'), 'b']], [Sym('v'), 1]])
         extra.append(('query', '=', rnd.choice([('raise', 1), ('stop', 1), ('all',)]), [[Sym('v'), 0], t], rnd.choice(['throw', 'close', 'drop'])))
